@@ -4,6 +4,7 @@ the same check function replays a stored input."""
 from __future__ import annotations
 
 import itertools
+import json
 import os
 
 import numpy as np
@@ -715,9 +716,20 @@ def gen_eig_inputs(rng, n):
         blocks = []
         for _ in range(nblocks):
             m = rng.choice([1, 1, 2, 3, 5, 8])
-            kind = rng.choice(["proj", "spectrum", "zero", "dup"])
+            kind = rng.choice(["proj", "spectrum", "zero", "dup", "tilted"])
             if kind == "dup" and blocks:
                 blocks.append(rng.choice(blocks).copy())
+                continue
+            if kind == "tilted" and m >= 2:
+                # an exact projector seen in a frame tilted by a small angle: rows with a tiny diagonal (theta^2) that
+                # still carry couplings of order theta — they belong to the block and must not be dropped as "zero rows"
+                ev = np.array([1.0] + [rng.choice([0.0, 1.0]) for _ in range(m - 2)] + [0.0])
+                th = rng.choice([3e-5, 1e-5, 6e-5, 2e-4, 1e-3])
+                G = np.eye(m)
+                G[0, 0] = G[m - 1, m - 1] = np.cos(th)
+                G[0, m - 1], G[m - 1, 0] = -np.sin(th), np.sin(th)
+                B = G @ np.diag(ev) @ G.T
+                blocks.append((B + B.T) / 2)
                 continue
             Q, _ = np.linalg.qr(nprng.normal(size=(m, m)))
             if kind == "proj":
@@ -871,6 +883,120 @@ def gen_history_inputs(rng, n):
                 cv = float((vals[i - 1] + vals[i]) / 2)
                 inp["cutoff"] = {str(o): cv for o in rng.sample([2, 3, 4], rng.randint(1, 2))}
         yield inp
+
+
+_FRESH_SCRIPT = r"""
+import sys, json
+import numpy as np
+inp = json.load(sys.stdin)
+from symfc.utils.utils import SymfcAtoms
+import symfc.basis_sets as BS
+cls = {2: BS.FCBasisSetO2, 3: BS.FCBasisSetO3, 4: BS.FCBasisSetO4}[inp["order"]]
+at = SymfcAtoms(cell=np.array(inp["lattice"]), scaled_positions=np.array(inp["positions"]), numbers=np.array(inp["numbers"]))
+bs = cls(at, cutoff=inp["cutoff"]).run()
+B = bs.basis_set
+F = bs.compression_matrix @ B
+R = np.random.default_rng(inp["rseed"]).normal(size=(F.shape[0], 2))
+print(json.dumps({"nb": int(B.shape[1]), "proj": (F @ (F.T @ R)).tolist()}))
+"""
+
+
+def _fresh_process_basis(cr, order, cutoff, rseed):
+    """the same basis computed in a NEW interpreter (no history at all); returns (n_basis, P R) for a fixed random R"""
+    import subprocess
+    import sys
+    payload = {"order": order, "cutoff": cutoff, "rseed": rseed, "lattice": cr.lattice.tolist(),
+               "positions": cr.positions.tolist(), "numbers": cr.numbers.tolist()}
+    env = dict(os.environ)
+    env.pop("SYMFC_VERIF", None)
+    p = subprocess.run([sys.executable, "-c", _FRESH_SCRIPT], input=json.dumps(payload), capture_output=True,
+                       text=True, env=env, timeout=600)
+    if p.returncode != 0:
+        raise RuntimeError("fresh-process reference failed: " + p.stderr[-300:])
+    j = json.loads(p.stdout.strip().splitlines()[-1])
+    return j["nb"], np.array(j["proj"])
+
+
+def check_process_history(inp) -> list:
+    """C12 at the level of the PROCESS and of basis-set OBJECTS: after an arbitrary prelude of other computations in the
+    same interpreter (same supercell with another geometry / other cutoff / operations supplied by the caller that
+    form a subgroup / re-ordered atoms / the same object run twice) the basis computed for the target must span the
+    same space as the one a fresh interpreter computes"""
+    cr = _cr(inp)
+    order = int(inp["order"])
+    cutoff = inp.get("cutoff")
+    rseed = int(inp.get("rseed", 0))
+    out = []
+    cls = ph.basis_cls(order)
+    rs = np.random.default_rng(rseed + 1)
+    for step in inp["prelude"]:
+        kind = step[0]
+        try:
+            if kind == "scaled":
+                cr2 = Crystal(cr.name, cr.lattice * float(step[1]), cr.positions, cr.numbers, cr.n_lp_expected, {})
+                cls(cr2.atoms(), cutoff=cutoff).run()
+            elif kind == "subgroup_ops":
+                rots, trans = ph.spg_ops(cr)
+                keep = [i for i in range(len(rots)) if np.array_equal(rots[i], np.eye(3, dtype=int))]
+                keep.sort(key=lambda i: (not np.allclose(trans[i], 0),))
+                cls(cr.atoms(), cutoff=cutoff,
+                    spacegroup_operations={"rotations": rots[keep], "translations": trans[keep]}).run()
+            elif kind == "other_cutoff":
+                cls(cr.atoms(), cutoff=float(step[1])).run()
+            elif kind == "permuted":
+                p = rs.permutation(len(cr.numbers))
+                cr2 = Crystal(cr.name, cr.lattice, cr.positions[p], cr.numbers[p], cr.n_lp_expected, {})
+                cls(cr2.atoms(), cutoff=cutoff).run()
+        except ValueError:
+            pass            # an empty basis in the prelude is of no interest here
+    obj = cls(cr.atoms(), cutoff=cutoff)
+    try:
+        bs = obj.run()
+        if any(st[0] == "rerun" for st in inp["prelude"]):
+            bs = obj.run()
+        nb = bs.basis_set.shape[1]
+        F = bs.compression_matrix @ bs.basis_set
+    except ValueError as e:
+        nb, F = 0, None
+        err = str(e)
+    nb_ref, PR = _fresh_process_basis(cr, order, cutoff, rseed)
+    if nb != nb_ref:
+        return [f"order {order}: {nb} basis vectors after the prelude {[s[0] for s in inp['prelude']]}, "
+                f"{nb_ref} in a fresh interpreter"]
+    if nb:
+        R = np.random.default_rng(rseed).normal(size=(F.shape[0], 2))
+        dev = float(np.abs(F @ (F.T @ R) - PR).max()) / max(float(np.abs(PR).max()), 1e-300)
+        if dev > 1e-7:
+            out.append(f"order {order}: basis after the prelude {[s[0] for s in inp['prelude']]} spans another space "
+                       f"than in a fresh interpreter (dev {dev:.2e})")
+    return out
+
+
+def gen_process_history_inputs(rng, n):
+    for k in range(n):
+        order = (2, 3, 2, 2, 3)[k % 5]
+        cr = crystal(rng, max_N=(8, 4)[order - 2], min_nlp=2 if k % 2 == 0 else 1)
+        dd = ph.min_image_distances(cr)
+        vals = np.unique(np.round(dd[dd > 1e-6], 6))
+        cutoff = None
+        if len(vals) >= 2 and rng.random() < 0.75:
+            i = rng.randrange(1, len(vals))
+            cutoff = float((vals[i - 1] + vals[i]) / 2)
+        kinds = []
+        for _ in range(rng.randint(1, 3)):
+            r = rng.random()
+            if r < 0.3:
+                kinds.append(("scaled", rng.choice([1.12, 1.25, 1.4])))      # larger cell first: fewer pairs in range
+            elif r < 0.55:
+                kinds.append(("subgroup_ops",))
+            elif r < 0.7 and len(vals) >= 2:
+                kinds.append(("other_cutoff", float(vals[0] * 0.9 + 0.05)))
+            elif r < 0.85:
+                kinds.append(("permuted",))
+            else:
+                kinds.append(("rerun",))
+        yield {"crystal": cr, "order": order, "orders": [order], "cutoff": cutoff, "prelude": kinds,
+               "rseed": rng.randrange(10 ** 6)}
 
 
 def check_solver_reuse(inp) -> list:
@@ -1101,6 +1227,7 @@ CHECKS = {
     "basis_o1": check_basis_o1,
     "api_invalid": check_api_invalid,
     "solver_reuse": check_solver_reuse,
+    "process_history": check_process_history,
 }
 
 
@@ -1123,8 +1250,21 @@ def run_oracle(name, inputs, which=None, known=None, nontrivial=lambda inp: True
                 res.count("singular_fit_skipped")
                 fails = []
             except Exception as e:  # noqa
-                # the library raised on an input of the property's domain (the unchanged tree does not)
                 import traceback as _tb
+                # who raised? walk the traceback from the innermost frame outwards: the first frame that belongs to
+                # symfc means the LIBRARY raised on an input of the property's domain (the unchanged tree does not);
+                # if a harness frame comes first it is a defect of this harness -> internal error, never a violation
+                owner = "harness"
+                for fr in reversed(_tb.extract_tb(e.__traceback__)):
+                    fn_ = fr.filename.replace("\\", "/")
+                    if "/symfc/" in fn_:
+                        owner = "library"
+                        break
+                    if "/harness/" in fn_:
+                        owner = "harness"
+                        break
+                if owner == "harness":
+                    raise
                 fails = [{"msg": f"library raised {type(e).__name__}: {str(e)[:120]}", "trace": _tb.format_exc()[-1200:]}]
             res.case(jinp, nontrivial(inp), sample={"crystal": desc, **{k: jsonable(v) for k, v in inp.items()
                                                                          if k not in ("crystal", "matrix")}})
